@@ -69,4 +69,10 @@ StrokeObsFails(s, e, pts, st) ==
        StrokeFails(s, e, w, pts, seq, IsInjective(seq), "")
   \cup (IF dw < 0 \/ (dw = Len(dm) /\ dw = Len(seq) /\ ToSet(dm) = ToSet(seq)) THEN {}
         ELSE StrokeFails(s, e, w, pts, dm, dw = Len(dm), "draw_"))
+
+\* very long lines: only the clauses that need no distance arithmetic (count and end points)
+LongLineFails(o) ==
+  LET m == Max(Abs(o.e[1] - o.s[1]), Abs(o.e[2] - o.s[2])) IN
+       (IF o.np = m + 1 THEN {} ELSE {"thin_count"})
+  \cup (IF o.first = o.s /\ o.last = o.e THEN {} ELSE {"thin_end"})
 =============================================================================
